@@ -374,6 +374,12 @@ def run_case(acc, c: dict, monitors: List[Callable], nontrivial: Optional[Callab
             pre = state["pre"]
             if c.get("composed"):
                 pre = {0: 999000}  # node 0 is the composed DAG's input: its "result" is the supplied token
+            if res.outcome == "hang" or res.forced:
+                # a stall is only believed when the same schedule stalls again (the first one may be the machine's doing)
+                res_c = run_one(tuple(c_ for _, _, c_ in res.choices))
+                if not (res_c.outcome == "hang" or res_c.forced):
+                    acc.extra["stalls_not_confirmed"] = acc.extra.get("stalls_not_confirmed", 0) + 1
+                    res = res_c
             stalled = res.outcome == "hang" or res.forced
             if acc.selfcheck < SELFCHECK_PER_SHARD:
                 acc.selfcheck += 1
